@@ -432,6 +432,12 @@ inductive TableOp where
   | del (domain answer : Bytes)
   /-- PUT /control/rewrite/update `{target, update}` -/
   | upd (tdomain tanswer : Bytes) (u : Raw)
+  /-- persistence round trip: `WriteDiskConfig` into a fresh `Config`, the
+  rewrites serialised as YAML (`domain`, `answer` only; `IP`/`Type` are
+  `yaml:"-"`), parsed back and a new filter created from them with `New` -/
+  | reload
+  /-- a request with a malformed JSON body to one of the three handlers -/
+  | bad
 
 /-- `(*LegacyRewrite).equal` against the (not normalized) entry built from the
 request: `Domain` and `Answer` compared byte for byte with the stored forms. -/
@@ -442,6 +448,16 @@ def replaceFirst (p : Entry → Bool) (n : Entry) : List Entry → Option (List 
   | [] => none
   | e :: es => if p e then some (n :: es) else (replaceFirst p n es).map (e :: ·)
 
+/-- What is read back from the saved configuration for one entry.  The parse
+oracle is reconstructed from the entry: an address entry parses to the same
+address again (same answer text); a CNAME answer, now in lower case, still is
+no address (`netip.ParseAddr` reads hex digits in either case — assumption,
+checked on every `C06.reload` of the sequence harness). -/
+def reraw (e : Entry) : Raw :=
+  ⟨e.domain, e.answer, match e.ip with
+    | some ip => some (e.typ == .A, ip)
+    | none => none⟩
+
 /-- New table and whether the handler answered 200. -/
 def stepTable (tbl : List Entry) : TableOp → List Entry × Bool
   | .write => (tbl, true)                      -- `cloneRewrites` is a faithful deep copy
@@ -451,6 +467,34 @@ def stepTable (tbl : List Entry) : TableOp → List Entry × Bool
     match replaceFirst (sameKey td ta) (normalize u) tbl with
     | some t => (t, true)
     | none => (tbl, false)                     -- 400 "target rule not found"
+  | .reload => (prepare (tbl.map reraw), true)
+  | .bad => (tbl, false)                       -- 400 "json.Decode", nothing touched
+
+/-- `GET /control/rewrite/list`: the stored `domain`/`answer` pairs in table order. -/
+def listTable (tbl : List Entry) : List (Bytes × Bytes) := tbl.map (fun e => (e.domain, e.answer))
+
+/-! ### CheckHost with the rule engines behind the rewrites
+
+`CheckHost` runs `processRewrites` first and returns at once when the result is
+`Rewritten`; otherwise the host checkers run.  The harness loads blocking rules
+`||name^`; such a rule blocks `name` and every name under it (urlfilter,
+taken as given). -/
+
+def blockedBy (rules : List Bytes) (host : Bytes) : Bool :=
+  rules.any (fun n => host == n || hasSuffix host (46 :: n))
+
+inductive Verdict where
+  | rewritten (o : Out)
+  | blocked
+  | notFound
+  deriving DecidableEq, Repr
+
+def checkHostFull (srt : Bytes → Sorter) (tbl : List Entry) (rules : List Bytes) (host : Bytes)
+    (qt : Nat) : Verdict :=
+  let o := checkHostWith srt tbl host qt
+  if o.rewritten then .rewritten o
+  else if host ≠ [] ∧ blockedBy rules (lower host) = true then .blocked
+  else .notFound
 
 /-- The table after a history of operations. -/
 def runTable (tbl : List Entry) (ops : List TableOp) : List Entry :=
